@@ -41,6 +41,9 @@ def run(ctx, standalone=True):
         # 'replacing up to the reorg limit of most recent blocks': the range backed out must be exactly the fork depth
         from . import c03
         ctx.rule('C15.RANGE', lambda: c03.rule_range(ctx), 5)
+        # '... can be carried out, because undo information exists': what was stored must be what the backup consumes,
+        # entry for entry (producer / consumer agreement on order, width and cursor)
+        ctx.rule('C03.UNDODUAL', lambda: c03.rule_undodual(ctx), 7)
 
 
 def rule_threshold(ctx):
